@@ -22,29 +22,50 @@ LEVEL_TEXT = ("Coq theorems over executable models of (1) the HDF5 store with h5
               "the source's values, a deep copy lives in freshly allocated cells closed under reachability and no mutation of them is visible "
               "through the source; (3) VCF import (positionally exact; with grouping a stable sort + run-length metadata) and the data-frame "
               "codecs (Morgan genetic maps lossless; refutations for cM rounding, breeding-value location/scale, sorted variance-matrix labels, "
-              "absent labels). Field lists, readers and copy modes are extracted from the source by an ast translator on every run and checked "
-              "(written = read, metadata persisted, copies cover constructor and metadata). The models are tied to the code by evaluating them "
-              "inside Coq against real HDF5 files, CSV files, data frames, VCF text parsed by cyvcf2, and copy/mutation experiments.")
+              "absent labels, default arguments on the two sides of the genetic-map codecs, marker names through the egmap file pair, the "
+              "interpolation kind given to the ExtendedGeneticMap constructor); every attribute a copy (shallow or deep) duplicates is a cell "
+              "allocated by that copy. Field lists, readers and copy modes (Gen/C16_Fields.v) and the kernel expressions on which the "
+              "theorems turn (Gen/C16_Kernel.v: field name, the three delete conditions and the recursive call of h5py_File_write_dict, the "
+              "decode condition of h5py_File_read_dict, the group-name normalisation of all 18 to_hdf5/from_hdf5 bodies, the unit conversions, "
+              "default units, constructor spline arguments, egmap column names and by-name/by-position column selections of the table readers, "
+              "the long-table layout of the variance-matrix codec) are extracted from the source by ast translators on every run; the "
+              "round-trip theorems are restated about the code written with the generated definitions, proved equal to the hand model by "
+              "conversion, so a changed expression leaves the obligations undischarged whatever the sampled cases exercise. The models are "
+              "tied to the code by evaluating them inside Coq against real HDF5 files, CSV / egmap files, data frames, VCF text parsed by "
+              "cyvcf2, the typed readers called directly, and copy/mutation experiments.")
 LEVEL_NOTE = ("trusted: Coq kernel + vm_compute, PrimFloat primitives (data-frame codecs), h5py/HDF5 (modelled as a path->node map with "
               "create/delete/membership), pandas (frames are compared cell by cell; CSV text is not modelled: the frame pandas parses back is an "
               "input of the model), cyvcf2 (VCF text -> records), numpy copy semantics (ndarray.__copy__/__deepcopy__ duplicate the buffer). "
               "Theorems are about the Gallina models; the tie to the code is differential on generated inputs plus the regenerated field tables. "
               "Not proved: general (all-size) round trips of the wide/long data-frame "
-              "codecs other than Morgan genetic maps, class-level (all attributes at once) copy equality.")
-TECHNIQUE = "Coq proof over executable store/codec/heap models; in-Coq vm_compute correspondence with the implementation; ast-generated field tables"
+              "codecs other than Morgan genetic maps and name-free egmap files, class-level (all attributes at once) copy equality. "
+              "DenseSquareTaxaTraitMatrix's own data-frame codec is checked by the predicate only (no Coq model); the CSV writers are "
+              "observed through the frame pandas parses back.")
+TECHNIQUE = "Coq proof over executable store/codec/heap models; in-Coq vm_compute correspondence with the implementation; ast-generated field tables and kernel expressions"
 RULE = ("case kinds from one PRNG: h5 (class, group name incl. nested/non-ASCII/absolute, 1-3 objects written to the same location with "
-        "overwrite flags, rich->poor sequences, optional fields all/none/mixed, grouped or arbitrary metadata, file name or open handle), wd "
-        "(h5py_File_write_dict called directly with nested dictionaries, None items, str/bytes members, a dictionary replacing data and the reverse), copy (14 classes x copy/deepcopy/method forms, then "
-        "every reachable array/dict of the copy is mutated), vcf (1-4 samples, 1-6 phased diploid records, unsorted, '.' identifiers, non-ASCII "
-        "names, phased and unphased class, with and without grouping, a share with tied coordinates), df (7 classes via pandas or CSV with "
-        "matching options, dyadic and awkward floats, sorted/unsorted and absent labels, cM/M units); non-trivial = an object with both present "
-        "and absent optional fields or a sequence of >= 2 writes / any copy, vcf, df, wd case; distinct by SHA-256 of the case")
+        "overwrite flags, rich->poor sequences, optional fields all/none/mixed, grouped or arbitrary metadata, file name or open handle; the "
+        "object written comes from the constructor, from copy.copy / copy.deepcopy, or is the object of the previous step updated in place "
+        "through its setters; layouts with more than 127 / 255 taxa or variants; int64 positions beyond 2^53), rd (every typed reader and "
+        "h5py_File_read_dict / has_group called directly on files written with h5py itself: all dtypes, values that wrap in int8, scalar and "
+        "array strings, invalid UTF-8), wd "
+        "(h5py_File_write_dict called directly with nested dictionaries, None items, str/bytes members, a dictionary replacing data and the reverse), copy (14 classes x "
+        "each of copy/deepcopy/.copy()/.deepcopy() in turn, source possibly itself a copy, hyper-parameter dictionaries with ndarray / list / "
+        "dictionary members, non-default interpolation kinds; then every mutable value reachable from the copy is mutated in place: arrays, "
+        "dictionary members, lists, members of member dictionaries), vcf (1-4 samples, 1-6 phased diploid records, unsorted, '.' identifiers, non-ASCII "
+        "names, phased and unphased class, with and without grouping, a share with tied coordinates), df (8 classes via pandas or CSV with "
+        "matching options, columns addressed by name or by position, dyadic and awkward floats, sorted/unsorted and absent labels, cM/M units, "
+        "default arguments on both sides, interpolation kind handed to the reader, ExtendedGeneticMap through to_egmap/from_egmap and through "
+        "hand-written egmap files with the documented header); non-trivial = an object with both present "
+        "and absent optional fields or a sequence of >= 2 writes / any copy, vcf, df, wd, rd case; distinct by SHA-256 of the case")
 TRUSTED = ["h5py/HDF5 semantics: membership test, delete of a group removes its subtree, create_dataset creates missing groups and refuses existing names",
            "pandas: DataFrame construction, get_loc, to_numpy; read_csv/to_csv treated as a black box whose parsed frame is observed",
            "cyvcf2 0.34: VCF text -> (CHROM, POS, ID, genotypes)", "numpy: ndarray.__copy__/__deepcopy__ copy the buffer; lexsort/argsort(mergesort) are stable",
-           "group metadata attribute names (taxa_grp_*, vrnt_chrgrp_*) are listed in the harness, not derived from the source"]
+           "group metadata attribute names (taxa_grp_*, vrnt_chrgrp_*) are listed in the harness, not derived from the source",
+           "harness/translate/c16_kernel.py (ast -> Gen/C16_Kernel.v, fail closed on any statement shape it does not recognise) and the entry-point audit "
+           "(every class / persistence method / helper of the anchored modules is classified as covered or skipped, at run time)",
+           "scipy.interpolate.interp1d (only its y values, kind and fill value are observed)"]
 ASSUMPTIONS = ["labels are str objects of unicode scalar values (no lone surrogates); label arrays are 1-D object arrays as the setters require",
-               "hyper-parameter dictionaries are one level deep", "VCF records carry diploid GT calls with integer CHROM",
+               "hyper-parameter dictionaries are one level deep for HDF5 (members: arrays, python numbers, str, bytes, None); for copies they may hold lists and one further dictionary (checked by the predicate)", "VCF records carry diploid GT calls with integer CHROM",
                "data-frame cases avoid NaN/inf and duplicated labels; CSV cases avoid labels that pandas would re-type (numeric, empty, NA-like)"]
 
 import boot
@@ -550,7 +571,8 @@ SKIPPED = {
 H5_FUNCS = {"h5py_File_write_dict": "wd, h5", "h5py_File_read_dict": "rd, h5 (genomic models)", "h5py_File_read_int": "rd, h5", "h5py_File_read_ndarray": "rd, h5",
             "h5py_File_read_ndarray_int": "rd", "h5py_File_read_ndarray_int8": "rd, h5", "h5py_File_read_ndarray_utf8": "rd, h5", "h5py_File_read_utf8": "rd, h5",
             "h5py_File_has_group": "rd", "h5py_File_is_readable": "rd", "h5py_File_is_writable": "rd"}
-UNCOVERED_ARGS = {  # parameters of covered methods that the generators leave at their defaults, with the reason
+UNCOVERED_ARGS = {
+    "DenseSquareTaxaTraitMatrix.from_pandas(trait_colnames = <positions>)": "refused with a TypeError by check_Sequence_all_type(trait_colnames, (str, NoneType)) although the annotation admits Integral (taxa / group / value columns by position are covered): an argument check, not a round-trip difference",  # parameters of covered methods that the generators leave at their defaults, with the reason
     "column-name parameters (taxa_col, vrnt_chrgrp_col, female_col, ...) and sep/header/index of the CSV writers": "renaming columns consistently on both sides does not change which array goes where; the egmap pair (tab separator, other names) is the one non-default combination the library itself uses and it is covered",
     "DenseCoancestryMatrix.to_pandas(taxa = <subset>)": "exports a sub-matrix by design: not a round trip",
     "spline / spline_fill_value arrays of the genetic-map readers": "fill_value other than 'extrapolate' changes interpolation outside the map only (property C11)",
@@ -867,7 +889,7 @@ def describe(case, out):
         d["all_overwrite"] = all(case["overwrite"])
         d["routes"] = ",".join(sorted(set(out.get("routes", ["new"])))) if isinstance(out, dict) else "?"
     if case["kind"] == "copy": d["how"] = case["how"]; d["src"] = case.get("src", "new")
-    if case["kind"] == "df": d["via"] = case["via"]; d["defaults"] = bool(case.get("opts", {}).get("defaults"))
+    if case["kind"] == "df": d["via"] = case["via"]; d["defaults"] = bool(case.get("opts", {}).get("defaults")); d["bypos"] = bool(case.get("opts", {}).get("bypos"))
     return d
 
 # ------------------------------------------------------------------------------------------------ copies
@@ -1169,6 +1191,14 @@ def _run_df(case):
     o = build(key, case["obj"])
     out = {"orig": observe_c(key, o) if key in ("SGMAP", "EGMAP") else observe(key, o)}
     to, fr = df_options(key, o, case)
+    if case.get("opts", {}).get("bypos") and key not in ("ALGM", "ADLGM") and fr:
+        # the readers accept every column argument by NAME or by POSITION: hand over the positions the writer's frame has
+        cols = [str(c) for c in o.to_pandas(**to).columns]
+        pref = {"taxa_colnames": lambda c: c.startswith("taxa_") and not c.startswith("taxa_grp_"), "taxa_grp_colnames": lambda c: c.startswith("taxa_grp_"),
+                "trait_colnames": lambda c: c.startswith("trait_")}
+        for k, v in list(fr.items()):
+            if (k.endswith("_col") or k == "value_colname") and isinstance(v, str) and v in cols: fr[k] = cols.index(v)
+            elif k in pref and v is True and k != "trait_colnames": fr[k] = [i for i, c in enumerate(cols) if pref[k](c)]      # trait_colnames: see UNCOVERED_ARGS
     out["opts"] = {"to": {k: (v if not isinstance(v, numpy.ndarray) else "<array>") for k, v in to.items()},
                    "from": {k: (v if not isinstance(v, (numpy.ndarray, dict)) else "<obj>") for k, v in fr.items()}}
     multi = key in ("ALGM", "ADLGM")
@@ -1247,8 +1277,10 @@ def gen_df(rng, key=None, via=None):
             o["_kind"] = rng.choice(["nearest", "previous", "next"]); o["_kind_build"] = rng.random() < 0.7
         if csv or via != "pandas" or rng.random() < 0.5:
             o["vrnt_genpos"]["d"] = [fhex(round(float.fromhex(x) * 256) / 256 + 1 / 256) for x in o["vrnt_genpos"]["d"]]
+        if via in ("pandas", "csv") and not opts.get("defaults") and rng.random() < 0.4: opts["bypos"] = True
         return {"kind": "df", "cls": key, "via": via, "obj": o, "opts": opts}
     mode = rng.choice(["all", "all", "mix", "none"])
+    if key in ("BV", "CM", "VM", "STT") and rng.random() < 0.4: opts["bypos"] = True
     o = {}
     if key == "BV":
         std = rng.random() < 0.5
